@@ -14,7 +14,10 @@
 #include "libavoid/libavoid.h"
 #include "libvpsc/assertions.h"
 #include "c10_regions.h"
+#include "c10_segs.h"
 #include <unistd.h>
+#include <sys/wait.h>
+#include <sys/mman.h>
 #include <set>
 using namespace Avoid;
 using vh::hx;
@@ -77,7 +80,7 @@ static bool cpMidCase(const vh::Args &a, long k, int argc, char **argv) {
     printf("cfg %s %s %d %d %s %u %s %d cpmid\n", hx(d).c_str(), hx(width).c_str(), m, 1, hx(buf).c_str(), opts, hx(0.0).c_str(), (int) transpose);
     Router *router = nullptr;
     try {
-        router = new Router(OrthogonalRouting);
+        router = new c10s::SegRouter(OrthogonalRouting);
         router->setTransactionUse(true);
         router->setRoutingParameter(segmentPenalty, seg);
         router->setRoutingParameter(idealNudgingDistance, d);
@@ -108,9 +111,9 @@ static bool cpMidCase(const vh::Args &a, long k, int argc, char **argv) {
             conns.push_back(c);
         }
         fflush(stdout);
-        c10r::arm();
+        c10r::arm(); c10s::arm();
         router->processTransaction();
-        c10r::dump();
+        c10r::dump(); c10s::dump();
         for (int i = 0; i < m; ++i) {
             pts("route", i, conns[i]->route(), transpose);
             pts("disp", i, conns[i]->displayRoute(), transpose);
@@ -119,7 +122,7 @@ static bool cpMidCase(const vh::Args &a, long k, int argc, char **argv) {
         vh::endCase();
         delete router;
     } catch (vpsc::CriticalFailure &f) {
-        c10r::dump();
+        c10r::dump(); c10s::dump();
         printf("assert %s\n", oneLine(f.what()).c_str());
         vh::endCase();
         if (a.only >= 0) _exit(0);
@@ -166,7 +169,7 @@ static bool endSegTieCase(const vh::Args &a, long k, int argc, char **argv) {
     printf("cfg %s %s %d %d %s %u %s %d endseg %d %d\n", hx(d).c_str(), hx(room).c_str(), m, 1, hx(buf).c_str(), opts, hx(0.0).c_str(), (int) transpose, (int) tie, (int) pins);
     Router *router = nullptr;
     try {
-        router = new Router(OrthogonalRouting);
+        router = new c10s::SegRouter(OrthogonalRouting);
         router->setTransactionUse(true);
         router->setRoutingParameter(segmentPenalty, seg);
         router->setRoutingParameter(idealNudgingDistance, d);
@@ -214,9 +217,9 @@ static bool endSegTieCase(const vh::Args &a, long k, int argc, char **argv) {
             conns.push_back(c);
         }
         fflush(stdout);
-        c10r::arm();
+        c10r::arm(); c10s::arm();
         router->processTransaction();
-        c10r::dump();
+        c10r::dump(); c10s::dump();
         for (int i = 0; i < m; ++i) {
             pts("route", i, conns[i]->route(), transpose);
             pts("disp", i, conns[i]->displayRoute(), transpose);
@@ -225,7 +228,7 @@ static bool endSegTieCase(const vh::Args &a, long k, int argc, char **argv) {
         vh::endCase();
         delete router;
     } catch (vpsc::CriticalFailure &f) {
-        c10r::dump();
+        c10r::dump(); c10s::dump();
         printf("assert %s\n", oneLine(f.what()).c_str());
         vh::endCase();
         if (a.only >= 0) _exit(0);
@@ -272,7 +275,7 @@ static bool zCrossCase(const vh::Args &a, long k, int argc, char **argv) {
     printf("cfg %s %s %d %d %s %u %s %d zcross %d\n", hx(d).c_str(), hx(Wc).c_str(), m, 1, hx(0.0).c_str(), opts, hx(0.0).c_str(), (int) transpose, (int) rtl);
     Router *router = nullptr;
     try {
-        router = new Router(OrthogonalRouting);
+        router = new c10s::SegRouter(OrthogonalRouting);
         router->setTransactionUse(true);
         router->setRoutingParameter(idealNudgingDistance, d);
         router->setRoutingOption(nudgeOrthogonalSegmentsConnectedToShapes, false);
@@ -301,9 +304,9 @@ static bool zCrossCase(const vh::Args &a, long k, int argc, char **argv) {
             conns.push_back(c);
         }
         fflush(stdout);
-        c10r::arm();
+        c10r::arm(); c10s::arm();
         router->processTransaction();
-        c10r::dump();
+        c10r::dump(); c10s::dump();
         for (int i = 0; i < m; ++i) {
             pts("route", i, conns[i]->route(), transpose);
             pts("disp", i, conns[i]->displayRoute(), transpose);
@@ -312,7 +315,7 @@ static bool zCrossCase(const vh::Args &a, long k, int argc, char **argv) {
         vh::endCase();
         delete router;
     } catch (vpsc::CriticalFailure &f) {
-        c10r::dump();
+        c10r::dump(); c10s::dump();
         printf("assert %s\n", oneLine(f.what()).c_str());
         vh::endCase();
         if (a.only >= 0) _exit(0);
@@ -350,7 +353,7 @@ static bool shapeEndsCase(const vh::Args &a, long k, int argc, char **argv) {
     printf("cfg %s %s %d %d %s %u %s %d shapeends\n", hx(d).c_str(), hx(H).c_str(), m + (extra ? 1 : 0) + (jog ? 1 : 0), 0, hx(0.0).c_str(), opts, hx(0.0).c_str(), (int) transpose);
     Router *router = nullptr;
     try {
-        router = new Router(OrthogonalRouting);
+        router = new c10s::SegRouter(OrthogonalRouting);
         router->setTransactionUse(true);
         router->setRoutingParameter(idealNudgingDistance, d);
         router->setRoutingOption(nudgeOrthogonalSegmentsConnectedToShapes, true);
@@ -391,9 +394,9 @@ static bool shapeEndsCase(const vh::Args &a, long k, int argc, char **argv) {
             conns.push_back(c); ++n;
         }
         fflush(stdout);
-        c10r::arm();
+        c10r::arm(); c10s::arm();
         router->processTransaction();
-        c10r::dump();
+        c10r::dump(); c10s::dump();
         for (int i = 0; i < n; ++i) {
             pts("route", i, conns[i]->route(), transpose);
             pts("disp", i, conns[i]->displayRoute(), transpose);
@@ -402,7 +405,7 @@ static bool shapeEndsCase(const vh::Args &a, long k, int argc, char **argv) {
         vh::endCase();
         delete router;
     } catch (vpsc::CriticalFailure &f) {
-        c10r::dump();
+        c10r::dump(); c10s::dump();
         printf("assert %s\n", oneLine(f.what()).c_str());
         vh::endCase();
         if (a.only >= 0) _exit(0);
@@ -432,7 +435,7 @@ static bool fanCase(const vh::Args &a, long k, int argc, char **argv) {
     printf("cfg %s %s %d %d %s %u %s %d fan\n", hx(d).c_str(), hx(W).c_str(), m + (other ? 1 : 0), 0, hx(0.0).c_str(), opts, hx(0.0).c_str(), (int) transpose);
     Router *router = nullptr;
     try {
-        router = new Router(OrthogonalRouting);
+        router = new c10s::SegRouter(OrthogonalRouting);
         router->setTransactionUse(true);
         router->setRoutingParameter(idealNudgingDistance, d);
         router->setRoutingOption(nudgeOrthogonalSegmentsConnectedToShapes, false);
@@ -466,9 +469,9 @@ static bool fanCase(const vh::Args &a, long k, int argc, char **argv) {
             conns.push_back(c); ++n;
         }
         fflush(stdout);
-        c10r::arm();
+        c10r::arm(); c10s::arm();
         router->processTransaction();
-        c10r::dump();
+        c10r::dump(); c10s::dump();
         for (int i = 0; i < n; ++i) {
             pts("route", i, conns[i]->route(), transpose);
             pts("disp", i, conns[i]->displayRoute(), transpose);
@@ -477,7 +480,7 @@ static bool fanCase(const vh::Args &a, long k, int argc, char **argv) {
         vh::endCase();
         delete router;
     } catch (vpsc::CriticalFailure &f) {
-        c10r::dump();
+        c10r::dump(); c10s::dump();
         printf("assert %s\n", oneLine(f.what()).c_str());
         vh::endCase();
         if (a.only >= 0) _exit(0);
@@ -518,7 +521,7 @@ static bool twinCase(const vh::Args &a, long k, int argc, char **argv) {
            (int) transpose, wlo, whi, hx(gapN).c_str());
     Router *router = nullptr;
     try {
-        router = new Router(OrthogonalRouting);
+        router = new c10s::SegRouter(OrthogonalRouting);
         router->setTransactionUse(true);
         router->setRoutingParameter(segmentPenalty, seg);
         router->setRoutingParameter(idealNudgingDistance, d);
@@ -552,9 +555,9 @@ static bool twinCase(const vh::Args &a, long k, int argc, char **argv) {
             conns[i]->setRoutingType(ConnType_Orthogonal);
         }
         fflush(stdout);
-        c10r::arm();
+        c10r::arm(); c10s::arm();
         router->processTransaction();
-        c10r::dump();
+        c10r::dump(); c10s::dump();
         for (int i = 0; i < m; ++i) {
             pts("route", i, conns[i]->route(), transpose);
             pts("disp", i, conns[i]->displayRoute(), transpose);
@@ -563,13 +566,262 @@ static bool twinCase(const vh::Args &a, long k, int argc, char **argv) {
         vh::endCase();
         delete router;
     } catch (vpsc::CriticalFailure &f) {
-        c10r::dump();
+        c10r::dump(); c10s::dump();
         printf("assert %s\n", oneLine(f.what()).c_str());
         vh::endCase();
         if (a.only >= 0) _exit(0);
         reexecFrom(k + 1, argc, argv);
     }
     return true;
+}
+
+// Eighth family ("segs-mix" / "segs-target-side" / "segs-source-side" / "segs-cp"): scenes for the SEGMENT tie
+// (buildOrthogonalNudgingSegments + buildOrthogonalChannelInfo against Model/NudgeSegs.lean, see harness/c10_segs.h).
+// 2..4 small shapes on a coarse grid (never overlapping), shapeBufferDistance 0/2/4, optionally a junction (fixed or free),
+// optionally a centre pin on every shape; m = 2..6 connectors whose ends are: a point inside a shape (centre, or close to a
+// side), a point ON the border of a shape, the centre pin, the junction, or a free point.  nudgeOrthogonalSegmentsConnectedToShapes
+// on in half of the cases.  `target-side`: m = 3..6 connectors from scattered free points INTO one side of one small shape, their
+// TARGET ends inside the shape 2..4 apart (seed C14-5's situation); `source-side`: the same scene with source and target swapped.
+// `cp`: connectors with one or two checkpoints, placed on the line through the source (strictly inside the first segment), on
+// the line through the target (inside the last segment), or anywhere (bends, middle segments); both directions of travel and
+// both orientations (transposition).  The route-level clauses of the driver run on these scenes as on all others.
+static bool segsCase(const vh::Args &a, long k, int argc, char **argv) {
+    vh::Rng r = vh::caseRng(a.seed, k, 8);
+    static const double ds[] = {1, 4, 10};
+    double d = ds[r.range(0, 2)];
+    int sub = (int) r.range(0, 3);
+    bool transpose = r.coin();
+    bool nudgeFinal = (sub == 1 || sub == 2) ? r.coin(3, 4) : r.coin();
+    unsigned opts = (nudgeFinal ? 1u : 0u) | (unsigned) (2 * r.range(0, 15));
+    static const double bufs[] = {0, 0, 2, 4};
+    double buf = bufs[r.range(0, 3)];
+    double fsp = r.coin(1, 10) ? 110.0 : 0.0;
+    auto P = [&](double x, double y) { return transpose ? Point(y, x) : Point(x, y); };
+    auto mkRect = [&](double xa, double ya, double xb, double yb) {
+        Point p = P(xa, ya), q = P(xb, yb);
+        return Rectangle(Point(std::min(p.x, q.x), std::min(p.y, q.y)), Point(std::max(p.x, q.x), std::max(p.y, q.y)));
+    };
+    struct Sh { double x0, y0, x1, y1; };
+    std::vector<Sh> shapes;
+    std::vector<std::pair<Pt2, Pt2> > ends;                   // untransposed source / target
+    std::vector<int> srcKind, dstKind, srcObj, dstObj;        // 0 point, 1 pin of shape obj, 2 junction
+    std::vector<std::vector<Pt2> > cps;
+    bool withPins = false, withJunction = false, junctionFixed = false;
+    Pt2 jpos = {0, 0};
+    const char *tag = "segs-mix";
+    if (sub == 1 || sub == 2) {
+        tag = (sub == 1) ? "segs-target-side" : "segs-source-side";
+        double w = (double) r.range(20, 40), h = (double) r.range(20, 40);
+        Sh s0 = {400, 300, 400 + w, 300 + h};
+        shapes.push_back(s0);
+        if (r.coin()) { Sh s1 = {250, 300 - (double) r.range(0, 60), 300, 360 + (double) r.range(0, 60)}; shapes.push_back(s1); }
+        int m = (int) r.range(3, 6);
+        double step = (double) r.range(2, 4);
+        int where = (int) r.range(0, 2);                      // 0 centre line, 1 close to the entered side, 2 on the border
+        std::set<long> used;
+        for (int j = 0; j < m; ++j) {
+            long sy;
+            do { sy = r.range(180, 480); } while (used.count(sy));
+            used.insert(sy);
+            Pt2 s = {(double) (100 - 12 * j) + (double) r.range(0, 5), (double) sy};
+            double ty = 300 + h / 2 + step * (j - m / 2.0);
+            if (ty < 300) ty = 300;
+            if (ty > 300 + h) ty = 300 + h;
+            Pt2 t = {where == 0 ? 400 + w / 2 : where == 1 ? 400 + (double) r.range(1, 4) : 400, ty};
+            if (sub == 1) ends.push_back(std::make_pair(s, t)); else ends.push_back(std::make_pair(t, s));
+            srcKind.push_back(0); dstKind.push_back(0); srcObj.push_back(0); dstObj.push_back(0);
+            cps.push_back(std::vector<Pt2>());
+        }
+    } else {
+        if (sub == 3) tag = "segs-cp";
+        int ns = (int) r.range(2, 4);
+        std::vector<int> cells;
+        for (int c = 0; c < 9; ++c) cells.push_back(c);
+        r.shuffle(cells);
+        for (int i = 0; i < ns; ++i) {
+            int cx = cells[i] % 3, cy = cells[i] / 3;
+            double w = (double) r.range(10, 30) * 2, h = (double) r.range(10, 30) * 2;
+            double x0 = 100 + 150 * cx + (double) r.range(0, 40), y0 = 100 + 150 * cy + (double) r.range(0, 40);
+            Sh s = {x0, y0, x0 + w, y0 + h};
+            shapes.push_back(s);
+        }
+        withPins = r.coin(1, 3);
+        withJunction = r.coin(1, 3);
+        if (withJunction) {
+            int cx = cells[ns] % 3, cy = cells[ns] / 3;
+            jpos.x = 100 + 150 * cx + (double) r.range(10, 70); jpos.y = 100 + 150 * cy + (double) r.range(10, 70);
+            junctionFixed = r.coin();
+        }
+        int m = (int) r.range(2, 6);
+        auto mkEnd = [&](int &kind, int &obj) -> Pt2 {
+            int what = (int) r.range(0, 9);
+            kind = 0; obj = 0;
+            int si = (int) r.range(0, ns - 1);
+            const Sh &s = shapes[si];
+            double cx = (s.x0 + s.x1) / 2, cy = (s.y0 + s.y1) / 2;
+            Pt2 p;
+            if (what <= 1) { p.x = cx; p.y = cy; }                                                  // centre of a shape
+            else if (what <= 3) {                                                                   // inside, close to a side
+                int side = (int) r.range(0, 3);
+                double off = (double) r.range(1, 4);
+                p.x = side == 0 ? s.x0 + off : side == 1 ? s.x1 - off : s.x0 + (double) r.range(1, (long) (s.x1 - s.x0) - 1);
+                p.y = side == 2 ? s.y0 + off : side == 3 ? s.y1 - off : s.y0 + (double) r.range(1, (long) (s.y1 - s.y0) - 1);
+            } else if (what == 4) {                                                                 // on the border
+                int side = (int) r.range(0, 3);
+                p.x = side == 0 ? s.x0 : side == 1 ? s.x1 : s.x0 + (double) r.range(0, (long) (s.x1 - s.x0));
+                p.y = side == 2 ? s.y0 : side == 3 ? s.y1 : s.y0 + (double) r.range(0, (long) (s.y1 - s.y0));
+            } else if (what == 5 && withPins) { kind = 1; obj = si; p.x = cx; p.y = cy; }
+            else if (what == 6 && withJunction) { kind = 2; p = jpos; }
+            else {                                                                                  // a free point in the gaps of the grid
+                int gx = (int) r.range(0, 3), gy = (int) r.range(0, 3);
+                p.x = 80 + 150 * gx + (double) r.range(0, 15); p.y = 80 + 150 * gy + (double) r.range(0, 15);
+            }
+            return p;
+        };
+        for (int j = 0; j < m; ++j) {
+            int ks, os, kt, ot;
+            Pt2 s = mkEnd(ks, os), t = mkEnd(kt, ot);
+            if (s.x == t.x && s.y == t.y) { t.x += 37; t.y += 23; kt = 0; }
+            ends.push_back(std::make_pair(s, t));
+            srcKind.push_back(ks); dstKind.push_back(kt); srcObj.push_back(os); dstObj.push_back(ot);
+            std::vector<Pt2> cp;
+            if (sub == 3 && (j == 0 || r.coin())) {
+                int n = (int) r.range(1, 2);
+                for (int c = 0; c < n; ++c) {
+                    int how = (int) r.range(0, 3);
+                    Pt2 q;
+                    double fx = 80 + 150 * (double) r.range(0, 3) + (double) r.range(0, 15), fy = 80 + 150 * (double) r.range(0, 3) + (double) r.range(0, 15);
+                    if (how == 0) { q.x = s.x; q.y = fy; }          // on the line through the source
+                    else if (how == 1) { q.x = fx; q.y = t.y; }     // on the line through the target
+                    else if (how == 2) { q.x = fx; q.y = s.y; }
+                    else { q.x = fx; q.y = fy; }
+                    if ((q.x == s.x && q.y == s.y) || (q.x == t.x && q.y == t.y)) { q.x += 21; q.y += 13; }
+                    cp.push_back(q);
+                }
+            }
+            cps.push_back(cp);
+        }
+    }
+    int m = (int) ends.size();
+    vh::beginCase(k, tag);
+    printf("cfg %s %s %d %d %s %u %s %d segs\n", hx(d).c_str(), hx(0.0).c_str(), m, 0, hx(buf).c_str(), opts, hx(fsp).c_str(), (int) transpose);
+    Router *router = nullptr;
+    try {
+        router = new c10s::SegRouter(OrthogonalRouting);
+        router->setTransactionUse(true);
+        router->setRoutingParameter(idealNudgingDistance, d);
+        router->setRoutingParameter(shapeBufferDistance, buf);
+        if (fsp > 0) router->setRoutingParameter(fixedSharedPathPenalty, fsp);
+        router->setRoutingOption(nudgeOrthogonalSegmentsConnectedToShapes, (opts & 1) != 0);
+        router->setRoutingOption(nudgeOrthogonalTouchingColinearSegments, (opts & 2) != 0);
+        router->setRoutingOption(performUnifyingNudgingPreprocessingStep, (opts & 4) != 0);
+        router->setRoutingOption(nudgeSharedPathsWithCommonEndPoint, (opts & 8) != 0);
+        router->setRoutingOption(penaliseOrthogonalSharedPathsAtConnEnds, (opts & 16) != 0);
+        router->setRoutingOption(improveHyperedgeRoutesMovingJunctions, false);
+        std::vector<ShapeRef *> srefs;
+        for (size_t i = 0; i < shapes.size(); ++i) {
+            Rectangle rc = mkRect(shapes[i].x0, shapes[i].y0, shapes[i].x1, shapes[i].y1);
+            printf("obstacle %s %s %s %s\n", hx(rc.ps[3].x).c_str(), hx(rc.ps[3].y).c_str(), hx(rc.ps[1].x).c_str(), hx(rc.ps[1].y).c_str());
+            ShapeRef *sr = new ShapeRef(router, rc, (unsigned) (1 + i));
+            srefs.push_back(sr);
+            if (withPins) new ShapeConnectionPin(sr, 1, ATTACH_POS_CENTRE, ATTACH_POS_CENTRE, true, 0.0, ConnDirNone);
+        }
+        JunctionRef *jref = nullptr;
+        if (withJunction) {
+            Point jp = P(jpos.x, jpos.y);
+            printf("junction %s %s %d\n", hx(jp.x).c_str(), hx(jp.y).c_str(), (int) junctionFixed);
+            jref = new JunctionRef(router, jp, 50);
+            jref->setPositionFixed(junctionFixed);
+        }
+        std::vector<ConnRef *> conns;
+        for (int i = 0; i < m; ++i) {
+            Point s = P(ends[i].first.x, ends[i].first.y), t = P(ends[i].second.x, ends[i].second.y);
+            printf("conn %d %s %s %s %s\n", i, hx(s.x).c_str(), hx(s.y).c_str(), hx(t.x).c_str(), hx(t.y).c_str());
+            ConnEnd se = srcKind[i] == 1 ? ConnEnd(srefs[srcObj[i]], 1) : srcKind[i] == 2 ? ConnEnd(jref) : ConnEnd(s);
+            ConnEnd te = dstKind[i] == 1 ? ConnEnd(srefs[dstObj[i]], 1) : dstKind[i] == 2 ? ConnEnd(jref) : ConnEnd(t);
+            ConnRef *c = new ConnRef(router, se, te, (unsigned) (100 + i));
+            c->setRoutingType(ConnType_Orthogonal);
+            if (!cps[i].empty()) {
+                std::vector<Checkpoint> v;
+                printf("cps %d %zu", i, cps[i].size());
+                for (size_t q = 0; q < cps[i].size(); ++q) {
+                    Point cp = P(cps[i][q].x, cps[i][q].y);
+                    printf(" %s %s", hx(cp.x).c_str(), hx(cp.y).c_str());
+                    v.push_back(Checkpoint(cp));
+                }
+                printf("\n");
+                c->setRoutingCheckpoints(v);
+            }
+            conns.push_back(c);
+        }
+        fflush(stdout);
+        c10r::arm(); c10s::arm();
+        router->processTransaction();
+        c10r::dump(); c10s::dump();
+        for (int i = 0; i < m; ++i) {
+            pts("route", i, conns[i]->route(), transpose);
+            pts("disp", i, conns[i]->displayRoute(), transpose);
+        }
+        printf("overlap %d\n", (int) router->existsOrthogonalSegmentOverlap());
+        vh::endCase();
+        delete router;
+    } catch (vpsc::CriticalFailure &f) {
+        c10r::dump(); c10s::dump();
+        printf("assert %s\n", oneLine(f.what()).c_str());
+        vh::endCase();
+        return false;                                         // the library state is broken: the supervisor starts a fresh child
+    }
+    (void) argc; (void) argv;
+    return true;
+}
+
+// The eighth family runs in a forked child (one fork for the whole range, one more after every abnormal end): free-space scenes
+// reach, about once in 5000 cases, the debug-only block of nudgeOrthogonalRoutes that reads vs[it->second] one past the end of vs
+// (known finding C10-nudging-assert-3041: the range (i, i+1) started by an unsatisfied channel-left variable that is the LAST
+// variable).  Usually that trips the library assertion (exception, reported as `assert`); when the slot holds allocator fill the
+// sanitizer aborts the process.  The parent then closes the open case with an `assert sanitizer:...` line taken from the child's
+// stderr and continues behind it.
+static void segsSupervised(const vh::Args &a, long from, long to, int argc, char **argv) {
+    long *sh = (long *) mmap(nullptr, 2 * sizeof(long), PROT_READ | PROT_WRITE, MAP_SHARED | MAP_ANONYMOUS, -1, 0);
+    if (sh == MAP_FAILED) _exit(4);
+    char errPath[64];
+    snprintf(errPath, sizeof errPath, "/tmp/c10segs.%d.err", (int) getpid());
+    long k = from;
+    while (k < to) {
+        fflush(stdout);
+        sh[0] = -1; sh[1] = 0;                                // current case, case already closed
+        pid_t child = fork();
+        if (child == 0) {
+            if (FILE *ef = fopen(errPath, "w")) dup2(fileno(ef), 2);
+            for (long kk = k; kk < to; ++kk) {
+                if (!a.want(kk)) continue;
+                sh[0] = kk; sh[1] = 0;
+                bool ok = segsCase(a, kk, argc, argv);
+                fflush(stdout);
+                if (!ok) { sh[1] = 1; _exit(77); }
+            }
+            _exit(0);
+        }
+        int status = 0;
+        waitpid(child, &status, 0);
+        if (WIFEXITED(status) && WEXITSTATUS(status) == 0) break;
+        if (sh[0] < 0) _exit(5);
+        if (!sh[1]) {
+            std::string why = "child_status_" + std::to_string(status);
+            if (FILE *f = fopen(errPath, "r")) {
+                char line[1024];
+                while (fgets(line, sizeof line, f)) {
+                    std::string l(line);
+                    if (l.find("runtime error") != std::string::npos || l.find("ERROR: AddressSanitizer") != std::string::npos) { why = l; break; }
+                }
+                fclose(f);
+            }
+            printf("assert sanitizer:%s\n", oneLine(why).c_str());
+            vh::endCase();
+        }
+        k = sh[0] + 1;
+    }
+    unlink(errPath);
 }
 
 int main(int argc, char **argv) {
@@ -585,8 +837,13 @@ int main(int argc, char **argv) {
     long nse = (thorough ? 3000 : 500) * a.scale;          // fifth family, after the fourth
     long nfan = (thorough ? 2500 : 400) * a.scale;         // sixth family, after the fifth
     long ntw = (thorough ? 3000 : 500) * a.scale;          // seventh family, after the sixth
-    for (long k = from; k < ncases + nmid + ntie + nzc + nse + nfan + ntw; ++k) {
+    long nsg = (thorough ? 12000 : 2000) * a.scale;        // eighth family, after the seventh
+    for (long k = from; k < ncases + nmid + ntie + nzc + nse + nfan + ntw + nsg; ++k) {
         if (!a.want(k)) continue;
+        if (k >= ncases + nmid + ntie + nzc + nse + nfan + ntw) {
+            segsSupervised(a, k, ncases + nmid + ntie + nzc + nse + nfan + ntw + nsg, argc, argv);
+            break;
+        }
         if (k >= ncases + nmid + ntie + nzc + nse + nfan) {
             if (!twinCase(a, k, argc, argv)) return 0;
             continue;
@@ -657,7 +914,7 @@ int main(int argc, char **argv) {
         printf("cfg %s %s %d %d %s %u %s %d\n", hx(d).c_str(), hx(W).c_str(), m, (int) wide, hx(buf).c_str(), opts, hx(fsp).c_str(), (int) transpose);
         Router *router = nullptr;
         try {
-            router = new Router(OrthogonalRouting);
+            router = new c10s::SegRouter(OrthogonalRouting);
             router->setTransactionUse(true);
             router->setRoutingParameter(idealNudgingDistance, d);
             router->setRoutingParameter(shapeBufferDistance, buf);
@@ -693,9 +950,9 @@ int main(int argc, char **argv) {
             }
             (void) c1;
             fflush(stdout);
-            c10r::arm();
+            c10r::arm(); c10s::arm();
             router->processTransaction();
-            c10r::dump();
+            c10r::dump(); c10s::dump();
             for (int i = 0; i < m; ++i) {
                 pts("route", i, conns[i]->route(), transpose);
                 pts("disp", i, conns[i]->displayRoute(), transpose);
@@ -706,7 +963,7 @@ int main(int argc, char **argv) {
         } catch (vpsc::CriticalFailure &f) {
             // libraries are built with -DUSE_ASSERT_EXCEPTIONS: a failed COLA_ASSERT costs one case
             // (reported in the stream); continue in a fresh process image, see harness/c11.cpp
-            c10r::dump();
+            c10r::dump(); c10s::dump();
         printf("assert %s\n", oneLine(f.what()).c_str());
             vh::endCase();
             if (a.only >= 0) _exit(0);
